@@ -55,7 +55,7 @@ var Locs = []string{
 	"global", "math.attr", "math.new", "sys.path.append", "sys.path.rebind", "sys.argv.inplace", "sys.argv.rebind",
 	"builtins.new", "builtins.len", "srcmod.val", "srcmod.list", "srcmod.dict", "class.attr", "func.default",
 	"type.int", "type.list", "type.exc", "os.environ", "string.attr", "time.attr", "sys.new", "print.capture", "nested.cfg",
-	"const.bytes", "exc.syntax", "modimpl.conf", "exc.eof",
+	"const.bytes", "exc.syntax", "modimpl.conf", "exc.eof", "print.fault", "type.subclasses",
 }
 
 var eofSources = []string{"x = (\n", "if x:\n", "def f(a,\n", "s = \"\"\"abc\n", "v = [1,\n  2,\n", "class C:\n"}
@@ -131,6 +131,14 @@ func writeStmt(loc string, v int) string {
 	case "print.capture":
 		// print() must write to THIS context's sys.stdout
 		return "import sys\nsys.stdout = _Cap()\nprint(" + val + ")"
+	case "print.fault":
+		// environment fault: this context's stdout fails in the middle of a
+		// print; what was being printed must not surface anywhere else, and the
+		// next print (to a healthy stream) prints exactly its own text
+		return fmt.Sprintf("import sys\nsys.stdout = _Bad(%d)\ntry:\n    print(\"lost\" + CT, %s, \"tail\")\nexcept ValueError:\n    pass\nsys.stdout = _Cap()\nprint(%s)", v%3, val, val)
+	case "type.subclasses":
+		// a class created at run time belongs to the context that created it
+		return "class ZZsub:\n    owner = CT\n    mark = " + val
 	case "os.environ":
 		return "import os\nos.environ[\"ZZ_SIM\"] = " + val
 	case "string.attr":
@@ -177,8 +185,10 @@ func readExpr(loc string) (prelude, expr string) {
 		return "", "ValueError.zz_attr"
 	case "nested.cfg":
 		return "import hlp", "(hlp.cfg.val, hlp.cfg.home)"
-	case "print.capture":
+	case "print.capture", "print.fault":
 		return "import sys", "_captured(sys.stdout)"
+	case "type.subclasses":
+		return "", "_foreign_subclasses()"
 	case "os.environ":
 		return "import os", "os.environ.get(\"ZZ_SIM\", \"unset\")"
 	case "string.attr":
@@ -218,6 +228,21 @@ class _Cap:
         self.buf.append(s)
     def flush(self):
         pass
+class _Bad:
+    def __init__(self, k):
+        self.k = k
+    def write(self, s):
+        self.k -= 1
+        if self.k < 0:
+            raise ValueError("stream broken")
+    def flush(self):
+        pass
+def _foreign_subclasses():
+    # classes of OTHER contexts reachable through the shared built-in type object
+    f = getattr(object, "__subclasses__", None)
+    if f is None:
+        return []
+    return sorted([c.mark for c in f() if c.__name__[:2] == "ZZ" and c.owner != CT])
 def _captured(o):
     if type(o) is _Cap:
         return "".join(o.buf)
